@@ -22,6 +22,7 @@ from . import common
 from mirsym.program import Program
 from mirsym.engine import Harness, explore, Stats, Unsupported
 from mirsym.values import *
+from mirsym.rustdefs import simple_name as simple
 from mirsym.models import some, none, ok, err, SeqIter, as_str
 from mirsym.models_coll import SetV
 from .irbuild import IR
@@ -141,6 +142,8 @@ def tasks(tier):
         for n0 in range(1, len(INCLUDES) + 1):
             out += [{'part': 'walk', 'n': n, 'libs': libs, 'first': first, 'n0': n0, 't0': t0} for t0 in range(-1, NF)]
         return out
+    # several main components, possibly in files that were only included: the whole real parse_files
+    ts += [{'part': 'walk', 'n': 1, 'libs': 'none', 'first': 0, 'n0': 1, 't0': t0, 'mains': True} for t0 in (-1, 1)]
     ts.append({'part': 'walk', 'n': 1, 'libs': 'none', 'first': -1, 'n0': 0})
     ts += split(1, 'none', 0)
     if tier == 'thorough':
@@ -260,6 +263,14 @@ def run_task(task):
         for k, v in enumerate(ninc): h.inputs['includes_of_f%d' % k] = v; base.append(z3.And(v >= 0, v <= len(INCLUDES)))
         R = lambda p, f: h.stub_res.append((re.compile(p), f))
 
+        mains = [z3.Bool('main_in_f%d' % k) for k in range(NF)]
+        if task.get('mains'):
+            for k, v in enumerate(mains): h.inputs['main_in_f%d' % k] = v
+            pfiles = pr.crates['parser']['parse_files']
+            R(r'(?:\w+::)*FileLibrary::new', lambda ex, a, m: Opaque('filelibrary'))
+            R(r'(?:\w+::)*ProgramArchive::new', lambda ex, a, m: err(Struct('()', [a[0], VecV([])])))
+            R(r'(?:errors::)?AnonymousComponentError::new', lambda ex, a, m: Opaque('anonerr'))
+
         def open_file(ex, a, m):
             p = pathof(a[0])
             if p.kind != 'canon': ex.oblige(False, 'canonical', 'a file is opened under a canonical path'); return err(BoxV(Opaque('report', 'fileos')))
@@ -278,7 +289,11 @@ def run_task(task):
             cnt = ex.concretize(ninc[k], 0, len(INCLUDES))
             incs = [ir.S('Include', meta=Struct('ast::Meta', [0, 100 * k + j, 100 * k + j + 1, ir.range_(100 * k + j, 100 * k + j + 1), some(k), Opaque('ci'), Opaque('tk'), Opaque('mk')]), path=StrV.of(INCLUDES[j])) for j in range(cnt)]
             ex.notes['incl'][k] = cnt
-            return ok(ir.S('AST', meta=Opaque('meta'), compiler_version=none(), custom_gates=False, custom_gates_declared=False, includes=VecV(incs), definitions=VecV([]), main_component=none()))
+            has_main = bool(task.get('mains')) and ex.decide(mains[k])
+            if has_main: ex.notes.setdefault('mains', []).append(k)
+            mmeta = Struct('ast::Meta', [0, 500 + k, 510 + k, ir.range_(500 + k, 510 + k), some(k), Opaque('ci'), Opaque('tk'), Opaque('mk')])
+            mc = some(Struct('()', [VecV([]), ir.E('ast::Expression', 'Call', meta=mmeta, id=StrV.of('T%d' % k), args=VecV([]))])) if has_main else none()
+            return ok(ir.S('AST', meta=Opaque('meta'), compiler_version=none(), custom_gates=False, custom_gates_declared=False, includes=VecV(incs), definitions=VecV([]), main_component=mc))
         R(r'(?:parser_logic::)parse_file', parse_stub)
         # the version check of a file may fail (unsupported pragma): its includes are followed all the same
         verr = [z3.Bool('version_error_f%d' % k) for k in range(NF)]
@@ -297,10 +312,15 @@ def run_task(task):
             paths = VecV([PathV('raw', ('cwd', '', 'in%d.circom' % i)) for i in range(n)])
             libs = [PathV('dir', ('libdir',))] if task['libs'] == 'dir' else []
             c0 = canon_of(ex, ('cwd', '', 'in0.circom')); ex.assume(c0 == task['first'])
+            if task.get('mains'): ex.assume(z3.And(ninc[1] <= 1, ninc[2] == 0))       # the include graph is not the subject of these tasks
             if task['first'] >= 0:
                 ex.assume(ninc[task['first']] == task['n0'])
                 if task['n0'] >= 1: ex.assume(canon_of(ex, ('dir', ('dirof', 'canon', task['first']), INCLUDES[0])) == task['t0'])
             reports = VecV([])
+            if task.get('mains'):
+                res = ex.call_mir(pfiles, [SliceV(paths, 0, n), SliceV(VecV(libs), 0, len(libs)), Ref([Struct('()', [2, 1, 4])], 0)])
+                ex.notes['iterations'] = len(ex.notes['reads'])
+                return None, deref(res).f[1]
             st = ex.call_mir(fnew, [SliceV(paths, 0, n), SliceV(VecV(libs), 0, len(libs)), Ref([reports], 0)])
             cell = [st]; flib = [Opaque('filelibrary')]; ver = [Struct('()', [2, 1, 4])]
             while True:
@@ -343,6 +363,21 @@ def run_task(task):
             ex.oblige(set(reads) == want, 'reachable', 'exactly the files reachable from the named inputs through resolvable includes are parsed (parsed %s, reachable %s)' % (sorted(set(reads)), sorted(want)), extra={'reads': reads})
             nerr = len(N['include_errors'])
             ex.oblige(nerr == unresolved, 'include-error', 'one error per include that cannot be resolved (%d errors, %d unresolvable includes)' % (nerr, unresolved))
+            if task.get('mains'):
+                nm = len(N.get('mains', []))
+                user_ids = set(k for k, iu in N['added'] if iu)
+                shown = []
+                for r_ in reports.items:
+                    r_ = deref(r_)
+                    if isinstance(r_, Struct) and simple(r_.ty) == 'Report' and ir.get(r_, 'code').var == 'MultipleMainInComponent':
+                        files = [deref(x) for x in ir.get(r_, 'primary_file_ids').items]
+                        cat_ = ir.get(r_, 'category').var
+                        passes = (not files) or any(f in user_ids for f in files)
+                        shown.append((cat_, files, passes))
+                ex.oblige((nm >= 2) == bool(shown), 'multiple-main', 'several main components (here %d, in files %s) are reported, and only then (reports %s)' % (nm, N.get('mains', []), shown))
+                if nm >= 2 and shown:
+                    ex.oblige(any(c in ('Error', 2) or str(c) == 'Error' for c, f_, p_ in shown) and any(p_ for c, f_, p_ in shown), 'multiple-main',
+                              'the multiple-main error is an error-level report that passes the file filter (location-less or located in a named file): mains in files %s, named files %s, reports %s' % (N.get('mains', []), sorted(user_ids), shown), extra={'reads': reads})
             for k, iu in N['added']:
                 ex.oblige(iu == (k in named), 'user-input', 'file f%d is classified as %s' % (k, 'a named input' if k in named else 'only included'), extra={'reads': reads})
         st_, vs, inc = explore(h, entry, None, post=post, base=base, stats=stats, seed=common.seed())
